@@ -34,7 +34,7 @@ def gen(ck, n, length, profile):
     return hs
 
 
-def run_generic(pid, profile, tier, seed, domains=None, extra_domains=(), n_quick=260, n_thorough=4000, rule=RULE):
+def run_generic(pid, profile, tier, seed, domains=None, extra_domains=(), n_quick=260, n_thorough=3000, rule=RULE):
     ck = Check(pid, tier, seed)
     build("dom_replay")
     doms = list(domains or domops.all_domains()) + list(extra_domains)
@@ -76,7 +76,7 @@ def run_generic(pid, profile, tier, seed, domains=None, extra_domains=(), n_quic
     if pid in ("C03", "C04"):
         # large-magnitude family: constants around +-2^25..2^27 (beyond float precision; DBM weights, interval bounds,
         # congruences with large moduli), each trace with its own sample of top (spec/DomainOps.tla RangeT / UT)
-        nf = 200 if tier == "quick" else 3000
+        nf = 200 if tier == "quick" else 1600
         for off in range(0, nf, 400):
             hs = [hist.large_history(ck.rng, 900000 + off + i, params=ck.rng.choice(PARAMS)) for i in range(min(400, nf - off))]
             fails, knowns, _ = domops.run_batch(ck, "large%d" % off, hs, doms, box=box, univ=univ, timeout=3000)
@@ -99,7 +99,7 @@ def run_generic(pid, profile, tier, seed, domains=None, extra_domains=(), n_quic
                 nontriv.add(json.dumps(h["steps"], sort_keys=True))
         ck.cov["directed_family"] = {"name": "twin_history", "histories": nf, "domains": tdoms}
         # second directed family: disjuncts that become equal, then explicit minimize()/normalize()
-        nf2 = 200 if tier == "quick" else 2000
+        nf2 = 200 if tier == "quick" else 1000
         for off in range(0, nf2, 500):
             hs = [hist.dup_disjunct_history(ck.rng, 750000 + off + i, params=ck.rng.choice(PARAMS)) for i in range(min(500, nf2 - off))]
             fails, knowns, _ = domops.run_batch(ck, "dup%d" % off, hs, doms, box=box, univ=univ, timeout=3000)
@@ -112,7 +112,7 @@ def run_generic(pid, profile, tier, seed, domains=None, extra_domains=(), n_quic
         rdoms2 = [d for d in doms if d in ("split_dbm", "sparse_dbm", "split_oct", "sdbm_ss", "sdbm_pt", "sdbm_ht", "sdbm_safe", "sdbm_big",
                                           "spdbm_safe", "soct_safe", "term_sdbm", "as_sdbm", "pack_sdbm", "bool_dbm", "pow_sdbm", "ref_split_dbm",
                                           "ref_split_oct", "num_product", "fixed_tvpi", "intervals")]
-        nfb = 400 if tier == "quick" else 6000
+        nfb = 400 if tier == "quick" else 3000
         for off in range(0, nfb, 1000):
             hs = [hist.bounds_diff_leq_history(ck.rng, 550000 + off + i, params=ck.rng.choice(PARAMS)) for i in range(min(1000, nfb - off))]
             fails, knowns, _ = domops.run_batch(ck, "fambd%d" % off, hs, rdoms2, box=box, univ=univ, timeout=3000)
